@@ -12,6 +12,9 @@
 //   gds/oas : the path saved as PATH record through Library::write_gds / write_oas, read back
 // Every random choice derives from (seed, path index): payloads start with g=<seed>:<index> and a
 // replay regenerates exactly that path.
+// Grid: doubles are multiplied by 2^30 (exact) and rounded to the nearest integer (error <= 2^-31 per coordinate,
+// five orders of magnitude below the guard bands, which are multiples of the path tolerance >= 1e-3).
+// Debug aid: C07_DUMP=1 prints spine / half widths / offsets of a replayed path to stderr.
 #include <algorithm>
 #include <cmath>
 #include <gdstk/gdstk.hpp>
@@ -1005,7 +1008,9 @@ static void run_path(uint64_t seed, uint64_t idx, const std::string& outdir, FIL
         c.end = EndType::Flush;
         c.bend = BendType::Circular;
         B.tol = 0.01;
-        if (idx == 0) c.bend_radius = 1.0;        // hw at vertex 1 = 1.5 (no bend there), at vertex 2 = 1.0 ... see below
+        // half widths at the vertices 0..4: 2, 1.625, 1.25, 0.875, 0.5; to_polygons bends where radius > hw[i],
+        // element_center where radius > hw[1]
+        if (idx == 0) c.bend_radius = 1.0;        // outline bends at vertex 3 only, centre line nowhere
         else if (idx == 1) c.bend_radius = 1.2;
         else if (idx == 2) { c.wA = 1; c.wB = 4; c.bend_radius = 1.2; }
         else if (idx == 3) c.bend_radius = 3;     // control: fits everywhere in both functions
@@ -1262,7 +1267,7 @@ int main(int argc, char** argv) {
         uint64_t sd, idx;
         if (parse_gid(kp.second, sd, idx)) one(sd, idx);
     }
-    uint64_t npaths = tier == "thorough" ? 6000 : 160;
+    uint64_t npaths = tier == "thorough" ? 3000 : 160;
     for (uint64_t idx = 0; idx < npaths; idx++) one(seed, idx);
     out.close();
     return 0;
